@@ -7,7 +7,7 @@
 \*   CompileText(text) = the IR of any selector text, state pseudo-classes included  (bound to the code by Trace_Parse)
 \*   T-StateDefs (MC_C17_defs): evaluating the compiled definition with the matcher of Ir.tla gives exactly HtmlState!StateHolds, i.e.
 \*   the library's definition texts say what the HTML standard says, on every enumerated document.
-EXTENDS Ir, StateDefsGen
+EXTENDS Ir, StateDefsGen, TLC
 PS == INSTANCE ParseSel
 
 KeyOf(nm) ==      \* ":checked" (code points, lower case) -> "checked"
@@ -57,6 +57,9 @@ StateLists == [k \in StateKeys |-> [CompileList(ExpandList(PS!ParseText(DefText(
 FlaggedList(k) == LET l == StateLists[k] n == Len(l.selectors) IN
                   IF DefFlag(k) = "" THEN l ELSE [l EXCEPT !.selectors = [l.selectors EXCEPT ![n] = [@ EXCEPT !.flags = {DefFlag(k)}]]]
 FlaggedLists == [k \in StateKeys |-> FlaggedList(k)]
+\* TLC shares constant values between its worker threads and normalises them lazily (not thread-safe): force the whole value once, in the
+\* single-threaded start-up phase (ASSUME ST!StateListsReady in the MC modules)
+StateListsReady == Len(ToString(FlaggedLists)) > 0
 \* T-StateDefs on one document.  The two range pseudo-classes are left out: what a valid date / number string is has zones the property does
 \* not decide (Calendar.tla CalDecided) and one known open deviation (F18); C18 gates them element by element.
 TheoremKeys == StateKeys \ {"in-range", "out-of-range"}
